@@ -403,6 +403,12 @@ func lenDerived(v ssa.Value) bool {
 		if b, ok := x.Call.Value.(*ssa.Builtin); ok && (b.Name() == "len" || b.Name() == "cap") {
 			return true
 		}
+		// the length methods of the standard containers: what they hold, never negative
+		if MatchCC(&x.Call, Spec{"bytes", "Buffer", "Len"}, Spec{"bytes", "Buffer", "Cap"}, Spec{"bytes", "Buffer", "Available"},
+			Spec{"strings", "Builder", "Len"}, Spec{"strings", "Builder", "Cap"}, Spec{"bytes", "Reader", "Len"}, Spec{"strings", "Reader", "Len"},
+			Spec{"bufio", "Reader", "Buffered"}, Spec{"bufio", "Writer", "Buffered"}, Spec{"bufio", "Writer", "Available"}) {
+			return true
+		}
 	case *ssa.BinOp:
 		if x.Op == token.ADD || x.Op == token.MUL {
 			return lenDerived(x.X) && lenDerived(x.Y)
